@@ -60,6 +60,7 @@ func runC11(rc *RunCtx) {
 		return c
 	}
 	nVer := 2 + G.Draw(3)
+	viaSignal := G.Draw(3) == 0 // reload through the SIGHUP loop instead of calling loadConfig directly
 	cfgs := make([]*mCfg, nVer)
 	for v := range cfgs {
 		cfgs[v] = mkCfg(v)
@@ -99,6 +100,26 @@ func runC11(rc *RunCtx) {
 	})
 	reloadsDone := false
 	var reloadErr error
+	dripSent := map[int][]byte{} // relay index -> bytes its drip target sent
+	for i := 0; i < 4; i++ {
+		i := i
+		startTarget(w, tgtIP, 7100+i, func(tc *targetConn) {
+			// the client half-closes at once; the target keeps sending across the reloads
+			readAll(tc.C)
+			for !reloadsDone {
+				m := payload(G, 1+G.Draw(800))
+				dripSent[i] = append(dripSent[i], m...)
+				if _, err := tc.C.Write(m); err != nil {
+					return
+				}
+				simrt.Sleep(time.Duration(1+G.Draw(3)) * time.Millisecond)
+			}
+			m := payload(G, 1+G.Draw(300))
+			dripSent[i] = append(dripSent[i], m...)
+			tc.C.Write(m)
+			tc.C.Close()
+		})
+	}
 	// ---- long-lived relays opened before the first reload ----
 	type relay struct {
 		kind        int // 0 idle across the reloads, 1 mid-transfer, 2 client half-closed while the target still sends
@@ -114,7 +135,7 @@ func runC11(rc *RunCtx) {
 	var relays []*relay
 	nRel := G.Draw(4)
 	for i := 0; i < nRel; i++ {
-		r := &relay{kind: G.Draw(2), key: both[G.Draw(len(both))]}
+		r := &relay{kind: G.Draw(3), key: both[G.Draw(len(both))]}
 		relays = append(relays, r)
 		addr := retT[G.Draw(len(retT))]
 		i := i
@@ -128,10 +149,17 @@ func runC11(rc *RunCtx) {
 			}
 			r.c = cc
 			enc := newEncoder(r.key)
-			enc.Lazy(socksAddr(fmt.Sprintf("%s:7000", tgtIP)))
+			if r.kind == 2 {
+				enc.Lazy(socksAddr(fmt.Sprintf("%s:%d", tgtIP, 7100+i)))
+			} else {
+				enc.Lazy(socksAddr(fmt.Sprintf("%s:7000", tgtIP)))
+			}
 			first := payload(G, 1+G.Draw(500))
 			r.sent = append(r.sent, first...)
 			cc.Write(enc.Chunk(first))
+			if r.kind == 2 {
+				cc.CloseWrite() // half-closed: only the target's direction keeps flowing
+			}
 			var rdone flag
 			simrt.GoNamed("c11-relay-reader", func() {
 				rd := shadowsocks.NewReader(cc, r.key.EK)
@@ -139,8 +167,8 @@ func runC11(rc *RunCtx) {
 				for {
 					n, err := rd.Read(buf)
 					r.got = append(r.got, buf[:n]...)
-					if len(r.got) >= len(first) {
-						r.established = true // the target's echo came back: the connection is relaying
+					if len(r.got) >= len(first) || (r.kind == 2 && len(r.got) > 0) {
+						r.established = true // data from the target came back: the connection is relaying
 					}
 					if err != nil {
 						if err.Error() != "EOF" {
@@ -163,15 +191,22 @@ func runC11(rc *RunCtx) {
 				}
 				simrt.Sleep(time.Duration(1+G.Draw(3)) * time.Millisecond)
 				if rdone.set {
-					r.closedEarly = true
+					// kinds 0/1: only the client ends the exchange, so an early end of stream is
+					// the server's doing; kind 2 is ended by its target and judged by byte equality
+					r.closedEarly = r.kind != 2
 					break
 				}
 			}
-			last := payload(G, 1+G.Draw(500))
-			r.sent = append(r.sent, last...)
-			cc.Write(enc.Chunk(last))
-			cc.CloseWrite()
+			if r.kind != 2 {
+				last := payload(G, 1+G.Draw(500))
+				r.sent = append(r.sent, last...)
+				cc.Write(enc.Chunk(last))
+				cc.CloseWrite()
+			}
 			rdone.Wait()
+			if r.kind == 2 {
+				r.sent = dripSent[i] // what the client must have received is what the target sent
+			}
 			cc.Close()
 			r.done = true
 		})
@@ -273,7 +308,14 @@ func runC11(rc *RunCtx) {
 			for y := G.Draw(6); y > 0; y-- {
 				simrt.Yield()
 			}
-			if err := ms.reload(cfgs[v], false); err != nil {
+			if viaSignal {
+				reads := ms.OS.Reads
+				ms.reload(cfgs[v], true)
+				for tries := 0; ms.OS.Reads == reads && tries < 100; tries++ {
+					simrt.Sleep(time.Millisecond)
+				}
+				simrt.Sleep(2 * time.Millisecond)
+			} else if err := ms.reload(cfgs[v], false); err != nil {
 				reloadErr = err
 				break
 			}
